@@ -12,13 +12,16 @@ from lib.calcorr import fmt_dt, ref_fields, guarded, at
 
 PROP = 'C09'
 LEVEL = 'proof'
-PROPS_MODULES = ['RTV.Props.C09']
+PROPS_MODULES = ['RTV.Props.C09', 'RTV.Props.C09DateParser']
 GEN = []
 REQUIRED_THEOREMS = ['weekday_candidates', 'monthday_candidates_partial', 'monthday_candidates_fixed',
                      'monthday_fails_with_time_of_day', 'feb29_candidates_nonleap_reference',
                      'feb29_candidates_leap_reference_partial', 'feb29_fails_with_time_of_day',
                      'feb29_fails_next_to_century', 'written_day_fixed', 'written_day_prefix_partial',
-                     'written_day_prefix_past_is_next_year', 'written_day_prefix_regression']
+                     'written_day_prefix_past_is_next_year', 'written_day_prefix_regression',
+                     'kth_weekday_of_month', 'kth_weekday_overflow_raises', 'weekday_of_month_named', 'on_day_spec',
+                     'relative_weekday_spec', 'weekday_and_day_fuel', 'weekday_and_day_result', 'weekday_and_day_sunday_never',
+                     'single_number_spec', 'parse_order', 'on_day_past_clamped', 'wdd_past_search_raises']
 RULE = ('unit: generate_dates over all 366 (month, day) x boundary reference days (month ends/starts, leap days, year '
         'boundaries, ISO week transitions, all weekdays; thorough: + every 7th day of 1996-2024 and every 2nd of 2087-2090) x times '
         '{00:00:00, 14:30:00, 23:59:59}, also with an explicit year and invalid days; bare weekday branch over every day '
